@@ -8,15 +8,17 @@ open Octo Octo.Drv.SqlCodec
     must use OrderSensitiveTransform (never the Limit node): the result is the first n rows of the final, consolidated
     group table in (ORDER BY c, then values) order. -/
 structure Lim2 where
+  mode : String
+  level : Nat          -- 0: ORDER BY/LIMIT at top level on the group-by; 1: on a subquery, at top level; 2: inside a subquery
   nested : Bool
   order : Nat          -- 0 none, 1 ORDER BY c ASC, 2 ORDER BY c DESC
   n : Nat
   table : List Octo.Sql.Row
 
 def parseLim2 : List String → Option Lim2
-  | "lim2" :: _mode :: nested :: order :: n :: rest => do
+  | "lim2" :: mode :: nested :: order :: n :: rest => do
     let (t, _) ← parseTable rest
-    pure { nested := nested == "1", order := order.toNat!, n := n.toNat!, table := t }
+    pure { mode := mode, level := nested.toNat!, nested := nested != "0", order := order.toNat!, n := n.toNat!, table := t }
   | _ => none
 
 open Octo.Sql in
@@ -28,7 +30,9 @@ def groupCounts (t : List Row) : List Row :=
 open Octo.Sql in
 def lim2Expected (op : Lim2) : List Row :=
   let order : List (SExpr × Bool) := match op.order with | 1 => [(.col 1, false)] | 2 => [(.col 1, true)] | _ => []
-  (sortCanon order (groupCounts op.table)).take op.n
+  let top := (sortCanon order (groupCounts op.table)).take op.n
+  -- a subquery's ORDER BY does not order the outer query: the table sinks then sort the rows by value
+  if op.level == 2 && (op.mode == "batch_table" || op.mode == "live_table") then sortCanon [] top else top
 
 def model (toks : List String) : String :=
   match toks with
@@ -50,7 +54,9 @@ def judgeLim2 (op : Lim2) (out : List String) : String :=
   | some rendered =>
     match matchRows groups groups rendered with
     | none => "bad row-not-in-final-group-table-or-repeated"
-    | some typed =>
+    | some typed0 =>
+      -- (for a LIMIT inside a subquery the outer order is free: judge the rows as a set of the right first n)
+      let typed := if op.level == 2 then sortCanon order typed0 else typed0
       if checkOrderLimit b groups typed then "ok"
       else if typed.length != min op.n groups.length then s!"bad wrong-row-count got={typed.length} want={min op.n groups.length}"
       else "bad not-the-first-n-of-the-order"
